@@ -43,8 +43,9 @@ type vfC17Run struct {
 
 	mu       sync.Mutex
 	dials    []*vfC17DialRec
-	filter   func(h *HostInfo) // optional hook called from the HostFilter
-	onDial   func(ip string)   // optional hook called by the dialer before it connects (may park)
+	filter   func(h *HostInfo)      // optional hook called from the HostFilter
+	reject   func(h *HostInfo) bool // optional: the HostFilter rejects the host when this returns true
+	onDial   func(ip string)        // optional hook called by the dialer before it connects (may park)
 	csc      *vfScope
 	closeErr int32 // != 0: every socket's Close() reports an error
 }
@@ -93,6 +94,25 @@ func (r *vfC17Run) openConns() []int {
 	for _, d := range r.dials {
 		if !d.mem.IsClosed() {
 			out = append(out, d.id)
+		}
+	}
+	return out
+}
+
+// openPerHost counts the open driver-side connections per node address, the control connection excluded.
+func (r *vfC17Run) openPerHost() map[string]int {
+	var ctl *vfMemConn
+	if r.sess != nil && r.sess.control != nil {
+		if ch := r.sess.control.getConn(); ch != nil && ch.conn != nil {
+			ctl = vfC17MemOf(ch.conn.conn)
+		}
+	}
+	r.mu.Lock()
+	defer r.mu.Unlock()
+	out := map[string]int{}
+	for _, d := range r.dials {
+		if !d.mem.IsClosed() && d.mem != ctl {
+			out[d.node]++
 		}
 	}
 	return out
@@ -176,9 +196,13 @@ func vfC17NewRun(id, nNodes, numConns int, mod func(*ClusterConfig)) (*vfC17Run,
 	cfg.HostFilter = HostFilterFunc(func(h *HostInfo) bool {
 		r.mu.Lock()
 		f := r.filter
+		rej := r.reject
 		r.mu.Unlock()
 		if f != nil {
 			f(h)
+		}
+		if rej != nil && rej(h) {
+			return false
 		}
 		return true
 	})
@@ -282,15 +306,16 @@ func vfC17QueryClass(err error) string {
 }
 
 type vfC17SessResult struct {
-	recs     []vfC17Rec
-	hang     bool
-	hangSig  string
-	dump     string
-	plan     string
-	leakDump string
-	rescued  bool
-	leak     string
-	stuck    string
+	recs        []vfC17Rec
+	hang        bool
+	hangSig     string
+	dump        string
+	plan        string
+	leakDump    string
+	rescued     bool
+	leak        string
+	stuck       string
+	perHostOver string
 }
 
 func (r *vfC17Run) records(sched int, end vfC17Rec) []vfC17Rec {
@@ -547,6 +572,21 @@ func vfC17RandomRun(seed int64, sched int) (res vfC17SessResult, err error) {
 	case 0:
 		plan = append(plan, "close")
 		vfWithin(vfC17CloseWatchdog, wg.Wait) // callers that never return are reported after Close
+		// quiescence: the dialer must not see more than NumConns open pool connections to any host (two
+		// pools for one host, a fill that over-counts, ... all end up here); transient excess is given 1.5 s
+		over := ""
+		vfC17Poll(1500*time.Millisecond, func() bool {
+			over = ""
+			for ip, n := range r.openPerHost() {
+				if n > numConns {
+					over = fmt.Sprintf("%s:%d", ip, n)
+				}
+			}
+			return over == ""
+		})
+		if over != "" {
+			res.perHostOver = over
+		}
 		closers = s.Close
 	case 1:
 		plan = append(plan, "close-twice")
@@ -625,7 +665,18 @@ func vfC17RandomRun(seed int64, sched int) (res vfC17SessResult, err error) {
 		}
 		closers = s.Close
 	}
+	pho := res.perHostOver
 	res = r.closeAndObserve(sched, strings.Join(plan, ","), closers)
+	res.perHostOver = pho
+	if pho != "" {
+		// recorded for TLC as an event of the run: a = open connections, size = NumConns
+		var n int
+		fmt.Sscanf(pho[strings.LastIndex(pho, ":")+1:], "%d", &n)
+		end := res.recs[len(res.recs)-1]
+		res.recs = append(res.recs[:len(res.recs)-1], vfC17Rec{Sched: sched, K: len(res.recs) - 1, Ev: "h_host_conns", A: n, Size: numConns,
+			Conns: []int{}, Open: []int{}, Dead: []int{}, Q: pho}, end)
+		res.recs[len(res.recs)-1].K = len(res.recs) - 1
+	}
 	atomic.StoreInt32(&stop, 1)
 	defer r.dropConnScope()
 	if !res.hang {
@@ -716,7 +767,7 @@ func TestVfC17Sessions(t *testing.T) {
 					hung = true
 				}
 				info.Write(map[string]interface{}{"sched": sched, "plan": res.plan, "hang": res.hang, "sig": res.hangSig,
-					"dump": res.dump, "callers": res.leakDump, "leak": res.leak, "stuck": res.stuck})
+					"dump": res.dump, "callers": res.leakDump, "leak": res.leak, "stuck": res.stuck, "per_host_over": res.perHostOver})
 			}(sched)
 		}
 		wg.Wait()
@@ -1416,6 +1467,188 @@ func vfC17ScenFailingSocketClose() vfC17ScenResult {
 	return res
 }
 
+// A control-connection reconnect whose setupConn fails after a successful dial + STARTUP, at each of its
+// steps: system.local answered with an error / with no row, REGISTER refused, the host rejected by the
+// HostFilter.  Every connection such an attempt opened must be closed again; judged at the dialer after the
+// attempts and after Close.
+func vfC17ScenReconnectSetupFails(step string) func() vfC17ScenResult {
+	return func() vfC17ScenResult {
+		res := vfC17ScenResult{Name: "reconnect-setup-fails-" + step}
+		r, err := vfC17NewRun(1, 2, 1, nil)
+		if err != nil {
+			res.Err = err.Error()
+			return res
+		}
+		s := r.sess
+		var armed int32
+		for _, n := range r.nodes {
+			n.Handler = func(nc *vfNodeConn, f *vfFrame, q *vfRequest) bool {
+				if atomic.LoadInt32(&armed) == 0 {
+					return false
+				}
+				switch {
+				case step == "local-error" && f.Op == vfOpQuery && strings.Contains(strings.ToLower(q.Stmt), "system.local"):
+					nc.Reply(f, vfOpError, vfErrorBody(0x0000, "vf: node is starting", nil))
+					return true
+				case step == "local-norows" && f.Op == vfOpQuery && strings.Contains(strings.ToLower(q.Stmt), "system.local"):
+					nc.Reply(f, vfOpResult, vfRowsBody(f.Version, "system", "local", vfLocalCols, nil, nil, false))
+					return true
+				case step == "register-error" && f.Op == vfOpRegister:
+					nc.Reply(f, vfOpError, vfErrorBody(0x000A, "vf: register refused", nil))
+					return true
+				}
+				return false
+			}
+		}
+		if step == "filtered" {
+			r.mu.Lock()
+			r.reject = func(h *HostInfo) bool {
+				if atomic.LoadInt32(&armed) == 0 {
+					return false
+				}
+				buf := make([]byte, 16384)
+				return strings.Contains(string(buf[:runtime.Stack(buf, false)]), "controlConn).setupConn")
+			}
+			r.mu.Unlock()
+		}
+		// pools are full, nothing else dials
+		vfC17Poll(2*time.Second, func() bool { return s.pool.Size() == 2 })
+		ch := s.control.getConn()
+		var ctl *vfC17DialRec
+		for _, d := range r.liveNodeConns() {
+			if ch != nil && ch.conn != nil && d.mem == vfC17MemOf(ch.conn.conn) {
+				ctl = d
+			}
+		}
+		if ctl == nil {
+			res.Err = "control connection not found"
+			s.Close()
+			return res
+		}
+		r.mu.Lock()
+		before := len(r.dials)
+		r.mu.Unlock()
+		atomic.StoreInt32(&armed, 1)
+		ctl.nc.Close() // the control connection is lost: HandleError -> reconnect -> one attempt per host
+		ndials := func() int { r.mu.Lock(); defer r.mu.Unlock(); return len(r.dials) }
+		if !vfC17Poll(3*time.Second, func() bool {
+			return ndials() >= before+2 && atomic.LoadInt32(&s.control.reconnecting) == 0
+		}) {
+			res.Err = fmt.Sprintf("the reconnect did not try both hosts (dials %d -> %d)", before, ndials())
+			atomic.StoreInt32(&armed, 0)
+			s.Close()
+			return res
+		}
+		leaked := func() []int {
+			r.mu.Lock()
+			defer r.mu.Unlock()
+			var out []int
+			for _, d := range r.dials[before:] {
+				if !d.mem.IsClosed() {
+					out = append(out, d.id)
+				}
+			}
+			return out
+		}
+		var after []int
+		vfC17Poll(time.Second, func() bool { after = leaked(); return len(after) == 0 })
+		natt := ndials() - before
+		okc, dump := vfWithin(vfC17CloseWatchdog, s.Close)
+		if !okc {
+			res.Viol = "session-close-hang:" + vfC17HangSig(dump, s)
+			res.What = "Session.Close did not return after failed control-connection reconnects"
+			return res
+		}
+		vfC17Poll(2*time.Second, func() bool { return len(r.openConns()) == 0 })
+		open := r.openConns()
+		res.Obs = fmt.Sprintf("%d reconnect attempts; connections of failed attempts still open: %v; open after Close: %v", natt, after, open)
+		if len(after) > 0 || len(open) > 0 {
+			res.Viol = "conn-leak:control-reconnect-setup-failed"
+			res.What = fmt.Sprintf("a control-connection reconnect attempt whose setupConn failed (%s) after a successful dial and STARTUP left its "+
+				"connection open (%d open after the attempts, %d after Session.Close): nobody owns it any more", step, len(after), len(open))
+			r.mu.Lock()
+			for _, d := range r.dials {
+				d.mem.Close()
+			}
+			r.mu.Unlock()
+		}
+		return res
+	}
+}
+
+// A pool of size 1, 2, 3 loses a connection (the only one for size 1): it is back at its size within a
+// bounded time, the dialer never sees more than the size, and a second loss is repaired as well.
+func vfC17ScenPoolRefilled(size int) func() vfC17ScenResult {
+	return func() vfC17ScenResult {
+		res := vfC17ScenResult{Name: fmt.Sprintf("pool-refilled-size-%d", size)}
+		r, err := vfC17NewRun(1, 2, size, nil)
+		if err != nil {
+			res.Err = err.Error()
+			return res
+		}
+		s := r.sess
+		full := func() bool {
+			m := r.openPerHost()
+			return m["10.0.0.1"] == size && m["10.0.0.2"] == size
+		}
+		if !vfC17Poll(3*time.Second, full) {
+			res.Err = fmt.Sprintf("pools did not fill initially: %v", r.openPerHost())
+			s.Close()
+			return res
+		}
+		for round := 1; round <= 2; round++ {
+			ch := s.control.getConn()
+			var victim *vfC17DialRec
+			for _, d := range r.liveNodeConns() {
+				if d.node == "10.0.0.2" && (ch == nil || ch.conn == nil || d.mem != vfC17MemOf(ch.conn.conn)) {
+					victim = d
+				}
+			}
+			if victim == nil {
+				res.Err = "no pool connection to the second host"
+				s.Close()
+				return res
+			}
+			victim.nc.Close()
+			// queries keep arriving (Pick triggers a fill when the pool is short)
+			ok := vfC17Poll(3*time.Second, func() bool {
+				for _, h := range s.ring.allHosts() {
+					if p, okp := s.pool.getPool(h); okp {
+						p.Pick()
+					}
+				}
+				return full()
+			})
+			if !ok {
+				res.Viol = "pool-not-refilled"
+				res.What = fmt.Sprintf("a pool of size %d that lost a connection (loss %d) was not back at its size within 3 s although queries kept "+
+					"arriving: open connections per host %v", size, round, r.openPerHost())
+				res.Obs = fmt.Sprintf("after loss %d: %v", round, r.openPerHost())
+				s.Close()
+				return res
+			}
+		}
+		over := false
+		for _, n := range r.openPerHost() {
+			if n > size {
+				over = true
+			}
+		}
+		res.Obs = fmt.Sprintf("refilled twice; open per host %v", r.openPerHost())
+		okc, dump := vfWithin(vfC17CloseWatchdog, s.Close)
+		if !okc {
+			res.Viol = "session-close-hang:" + vfC17HangSig(dump, s)
+			res.What = "Session.Close did not return"
+			return res
+		}
+		if over {
+			res.Viol = "host-conns-exceed-numconns"
+			res.What = "more open connections to a host than NumConns"
+		}
+		return res
+	}
+}
+
 func TestVfC17Scenarios(t *testing.T) {
 	outPath := os.Getenv("VF_TRACES")
 	if outPath == "" {
@@ -1427,7 +1660,10 @@ func TestVfC17Scenarios(t *testing.T) {
 	}
 	defer out.Close()
 	fs := []func() vfC17ScenResult{vfC17ScenHeartbeatAfterClose, vfC17ScenEventStopTwice, vfC17ScenRefreshAfterStop,
-		vfC17ScenLatePool, vfC17ScenFlusherSelfWait, vfC17ScenCloseAfterRefresh, vfC17ScenCloseBusyRefresherPending, vfC17ScenReconnectRacingClose, vfC17ScenFailingSocketClose}
+		vfC17ScenLatePool, vfC17ScenFlusherSelfWait, vfC17ScenCloseAfterRefresh, vfC17ScenCloseBusyRefresherPending, vfC17ScenReconnectRacingClose, vfC17ScenFailingSocketClose,
+		vfC17ScenReconnectSetupFails("local-error"), vfC17ScenReconnectSetupFails("local-norows"),
+		vfC17ScenReconnectSetupFails("register-error"), vfC17ScenReconnectSetupFails("filtered"),
+		vfC17ScenPoolRefilled(1), vfC17ScenPoolRefilled(2), vfC17ScenPoolRefilled(3)}
 	results := make([]vfC17ScenResult, len(fs))
 	var wg sync.WaitGroup
 	for i, f := range fs {
